@@ -139,6 +139,40 @@ def onepass_problems(ff: FuncFlow, p: str) -> List[str]:
   return problems
 
 
+def stored_iterables(repo: Repo, ff: FuncFlow, p: str) -> List[Tuple[ast.AST, str]]:
+  """`self.<a> = p` for an Iterable parameter p that was not materialised, where another method of the class iterates self.<a>: the
+  method can be called many times (every batch, every pass), a generator argument serves only the first call."""
+  fi = ff.fi
+  sc = fi.scope.parent
+  if sc is None or sc.kind != 'class':
+    return []
+  ci = fi.module.classes_by_node.get(sc.node)
+  if ci is None or '__next__' in ci.methods:
+    return []
+  out = []
+  for n in ff.cfg.nodes:
+    st = n.ast
+    if n.kind == 'stmt' and isinstance(st, ast.Assign) and len(st.targets) == 1 and isinstance(st.targets[0], ast.Attribute) and isinstance(
+        st.targets[0].value, ast.Name) and st.targets[0].value.id == 'self' and isinstance(st.value, ast.Name) and st.value.id == p:
+      ds = ff.defs_for(st.value)
+      if not ds or not all(d.kind == 'param' for d in ds):
+        continue
+      attr = st.targets[0].attr
+      for name, mth in ci.methods.items():
+        if mth is fi:
+          continue
+        for x in ast.walk(mth.node):
+          it = None
+          if isinstance(x, (ast.For, ast.comprehension)):
+            it = x.iter
+          elif isinstance(x, ast.Starred):
+            it = x.value
+          if it is not None and isinstance(it, ast.Attribute) and it.attr == attr and isinstance(it.value, ast.Name) and it.value.id == 'self':
+            out.append((st, f'self.{attr} is iterated in {ci.name}.{name}'))
+            break
+  return out
+
+
 def bad_copies(ff: FuncFlow) -> List[Tuple[ast.Call, str]]:
   out = []
   for _, c in ff.calls():
@@ -307,6 +341,10 @@ def check_lints(check, funcs, rule_prefix: str = ''):
                f'`{nm}` is set before the loop and read after it, but the loop overwrites it in every iteration without reading the previous '
                'value: only the last iteration has any effect', node=st, exact=True)
     for p in iterable_params(fi):
+      for st, why in stored_iterables(repo, ff, p):
+        check.ob('R-ONEPASS', fi, txt(st)[:70], False,
+                 f'the iterable parameter `{p}` is kept as it is and {why}: a one-shot iterable (generator, map) is empty from the second '
+                 'call on; materialise it (tuple(...)) when storing', node=st, exact=True)
       for why in onepass_problems(ff, p):
         check.ob('R-ONEPASS', fi, f'iterable parameter {p}', False,
                  f'{why}: a one-shot iterable (generator, map, filter, islice) is exhausted by the first use, so later uses see nothing', exact=True)
